@@ -397,6 +397,9 @@ func execScript(args []string) (res result) {
 	var lastAt time.Duration = -1 // schedule time of the most recent @ token not yet consumed by a W
 	nInvalid := 0
 	nScans, nInvalidCalls := 0, 0
+	skipLKD := 0
+	var loopMAC []string           // MAC of loop i (a StartHunt of a MAC not hunted starts the next loop)
+	huntedNow := map[string]bool{} // the harness's own view of the hunt list (only to number the loops)
 	gated := false            // the connection holds every write
 	seenBlocked := 0          // writers seen at the gate so far
 	var bg chan struct{}      // a ProcessPacket / Scan call running in the background while the gate is held
@@ -499,6 +502,48 @@ func execScript(args []string) (res result) {
 			toks = append(toks, t)
 			continue
 		}
+		if strings.HasPrefix(t, "@WN,") {
+			toks = append(toks, t)
+		// many loops tick at (almost) the same time: wait until every started loop has had the chance to write
+		// (n attempts, or the end of the window), then give each loop the frames addressed to its own MAC
+		// (a loop writes only to its own MAC: C13_loop_frames) as its Lookup/Check/Send
+		n, _ := strconv.Atoi(strings.TrimPrefix(t, "@WN,"))
+		spread := time.Duration(len(loopMAC)) * 8 * time.Millisecond
+		deadline := time.Now().Add(450*time.Millisecond + spread)
+		for conn.Attempts() < seenAttempts+n && time.Now().Before(deadline) {
+			time.Sleep(200 * time.Microsecond)
+		}
+		time.Sleep(3 * time.Millisecond)
+		fs := take()
+		used := make([]bool, len(fs))
+		for i, m := range loopMAC {
+			var mine [][]byte
+			for x, fr := range fs {
+				if !used[x] && len(fr) >= 6 && hex.EncodeToString(fr[0:6]) == m {
+					mine = append(mine, fr)
+					used[x] = true
+					break // one frame per loop and tick; a second one stays for the next loop of the same MAC
+				}
+			}
+			if i == len(loopMAC)-1 {
+				for x, fr := range fs {
+					if !used[x] {
+						mine = append(mine, fr)
+					}
+				}
+			}
+			is := strconv.Itoa(i)
+			hint := "000000000000"
+			if len(mine) > 0 {
+				hint = hex.EncodeToString(mine[0][0:6])
+			}
+			toks = append(toks, "L,"+is, "K,"+is, "D,"+is+","+hint)
+			obs = append(obs, "-", "-", showOut(mine))
+		}
+		lastAt = -1
+			skipLKD = 3 * len(loopMAC) // a replayed line carries the L/K/D tokens this step regenerates
+			continue
+		}
 		if strings.HasPrefix(t, "@") {
 			ms, _ := strconv.Atoi(t[1:])
 			lastAt = time.Duration(ms) * time.Millisecond
@@ -509,10 +554,19 @@ func execScript(args []string) (res result) {
 			continue
 		}
 		f := strings.Split(t, ",")
+		if skipLKD > 0 && (f[0] == "L" || f[0] == "K" || f[0] == "D") {
+			skipLKD--
+			continue
+		}
+		skipLKD = 0
 		switch f[0] {
 		case "S":
 			h.StartHunt(packet.Addr{MAC: own(0, mac6(f[1])), IP: ip4(f[2])})
 			scribble()
+			if !huntedNow[f[1]] {
+				huntedNow[f[1]] = true
+				loopMAC = append(loopMAC, f[1])
+			}
 			// what the new goroutine emits belongs to the D token that follows; nothing is taken here
 			obs = append(obs, "-")
 			toks = append(toks, t)
@@ -524,6 +578,7 @@ func execScript(args []string) (res result) {
 		case "T":
 			h.StopHunt(packet.Addr{MAC: own(0, mac6(f[1]))})
 			scribble()
+			delete(huntedNow, f[1])
 			obs = append(obs, showOut(take()))
 			toks = append(toks, t)
 		case "C":
@@ -572,11 +627,8 @@ func execScript(args []string) (res result) {
 				if heldScript {
 					obs = append(obs, showOut(take()))
 				} else {
-					if f[4] != "00000000" {
-						obs = append(obs, "-", showOut(take()))
-					} else {
-						obs = append(obs, showOut(take()), "-")
-					}
+					// ProcessPacket decides (R), the write after its unlock is RR: spoof reply and probe reject alike
+					obs = append(obs, "-", showOut(take()))
 					toks = append(toks, "RR,0")
 				}
 			}
@@ -644,12 +696,7 @@ func execScript(args []string) (res result) {
 				obs = append(obs, "panic")
 				take()
 			} else {
-				raw := lib.UnHex(f[2])
-				if len(raw) >= 18 && (raw[14] != 0 || raw[15] != 0 || raw[16] != 0 || raw[17] != 0) {
-					obs = append(obs, "-", showOut(take()))
-				} else {
-					obs = append(obs, showOut(take()), "-")
-				}
+				obs = append(obs, "-", showOut(take()))
 				toks = append(toks, "RR,0")
 			}
 		case "AR":
@@ -1217,6 +1264,14 @@ func directed() [][]string {
 		{"S," + m1 + "," + ipA, "W,0,0", "S," + m1 + "," + ipA, "S," + m1 + "," + ipB, who(m1, ipA)},
 		// probe reject: offer differs and target in LAN / equal / off LAN / no offer / cleared
 		{"O," + m3 + "," + ipA, probe(m3, ipB), probe(m3, ipA), probe(m3, ipOff), probe(m2, ipB), "O," + m3 + ",-", probe(m3, ipB)},
+		// probe-reject at the boundary of the home LAN 192.168.0.0/24 (offer .2): network address, broadcast address,
+		// first, last, one below the network, one above the broadcast address; the offered address itself
+		{"O," + m3 + "," + ipA, probe(m3, "c0a80000"), probe(m3, "c0a800ff"), probe(m3, "c0a80001"), probe(m3, "c0a800fe"),
+			probe(m3, "c0a7ffff"), probe(m3, "c0a80100"), probe(m3, ipA)},
+		// whose offer: none for this MAC (another MAC holds one), an offer that was withdrawn / expired, one renewed
+		// with the probed address, one renewed with another address
+		{"O," + m2 + "," + ipA, probe(m3, ipB), "O," + m3 + "," + ipA, probe(m3, ipB), "O," + m3 + ",-", probe(m3, ipB),
+			"O," + m3 + "," + ipB, probe(m3, ipB), "O," + m3 + "," + ipC, probe(m3, ipB), probe(m2, ipA), probe(m2, ipB)},
 		// K1: probe for the router's address from an unhunted MAC with another offer
 		{"O," + m3 + "," + ipA, probe(m3, ipRouter)},
 		// K3: spoof reply after Close
@@ -1297,9 +1352,41 @@ func directedHeld() [][]string {
 		// first, @RL = newest writer); then the held forged reply is written AFTER the restoring packet
 		{std, "@0", s1, "W,0,0", "@3800", "@H", who(m1, ipA), "T," + m1, "@5850", "L,0", "K,0", "@RL", "D,0,0", "@R", "RR,0", "@U",
 			"@11850", "W,0,0"},
+		// probe branch: the reject is decided on the offer read under the session's lock and held inside WriteTo; the
+		// offer is then renewed WITH the probed address (no reject would be due any more) / the handler is closed:
+		// the reject already decided is still written
+		{std, "O," + macs[2] + "," + ipA, "@H", "R,1," + macs[2] + "," + macs[2] + "," + ipZero + ",000000000000," + ipB,
+			"O," + macs[2] + "," + ipB, "@R", "RR,0", "@U", "R,1," + macs[2] + "," + macs[2] + "," + ipZero + ",000000000000," + ipB, "RR,0"},
+		{std, "O," + macs[2] + "," + ipA, "@H", "R,1," + macs[2] + "," + macs[2] + "," + ipZero + ",000000000000," + ipB,
+			"C", "@R", "RR,0", "@U"},
 		// Scan: Close between the h.closed test and the write of a request: that request leaves, the scan ends
 		{smallLAN.tok(), "@H", "AS", "SC,0", "C", "@R", "SS,0", "@U", "SC,0", "SS,0"},
 	}
+}
+
+// many hunted hosts on one handler: n loops, half of them stopped before the first tick; every tick is one WN
+// token (all loops wake within a few milliseconds of each other). Each stopped host must get its restoring packet
+// at the FIRST tick after its StopHunt (the one-cycle bound per host), each hunted host its announcement at every
+// tick, terminated loops stay silent.
+func scaleScenario(n int) []string {
+	toks := []string{stdCfg().tok(), "@0"}
+	macOf := func(i int) string { return fmt.Sprintf("0200000001%02x", i) }
+	for i := 0; i < n; i++ {
+		toks = append(toks, "S,"+macOf(i)+","+fmt.Sprintf("c0a800%02x", 20+i%200), "W,"+strconv.Itoa(i)+",0")
+	}
+	toks = append(toks, "@3800")
+	for i := 0; i < n; i += 2 {
+		toks = append(toks, "T,"+macOf(i))
+	}
+	if n >= 2 {
+		toks = append(toks, "R,1,"+macOf(1)+","+macOf(1)+",c0a80015,000000000000,"+ipRouter)
+	}
+	toks = append(toks, "@5850", "@WN,"+strconv.Itoa(n), "@9800")
+	for i := 1; i < n; i += 4 {
+		toks = append(toks, "T,"+macOf(i))
+	}
+	toks = append(toks, "@11850", "@WN,"+strconv.Itoa(n))
+	return toks
 }
 
 func fixHints(toks []string) []string {
@@ -1466,6 +1553,14 @@ func main() {
 			runCase(r, script, 4)
 			r.Stat("class.timed-directed", 1)
 		}(script)
+	}
+	for _, n := range []int{1, 2, 3, 10, 50} {
+		wg.Add(1)
+		go func(script []string) {
+			defer wg.Done()
+			runCase(r, script, 4)
+			r.Stat("class.scale", 1)
+		}(scaleScenario(n))
 	}
 	for _, d := range directedHeld() {
 		wg.Add(1)
